@@ -293,9 +293,12 @@ func IsFqdn(s string) bool {
 
 	// Otherwise we have to check if the dot is escaped or not by checking if
 	// there are an odd or even number of escape sequences before the dot.
-	i := strings.LastIndexFunc(s, func(r rune) bool {
-		return r != '\\'
-	})
+	// This is done on bytes: a multi-byte UTF-8 sequence before the escape
+	// sequences must not be counted as a single position.
+	i := len(s) - 1
+	for i >= 0 && s[i] == '\\' {
+		i--
+	}
 	return (len(s)-i)%2 != 0
 }
 
